@@ -265,13 +265,14 @@ def stores(fn, rec=None):
     for bi, blk in enumerate(fn.blocks):
         if blk['cleanup']:
             continue
+        rb = rec.at(bi) if hasattr(rec, 'at') else rec      # reaching-definition aware: temporaries set on several paths resolve to the one that reaches
         for si, st in enumerate(blk['stmts']):
             if st['k'] == 'assign' and st['p']['pr']:
-                out.append({'block': bi, 'idx': si, 'target': rec.place(st['p']), 'value': rec.rvalue(st['rv']),
+                out.append({'block': bi, 'idx': si, 'target': rb.place(st['p']), 'value': rb.rvalue(st['rv']),
                             'span': st.get('span')})
         t = blk['term']
         if t['k'] == 'call' and t['dest']['pr']:
-            out.append({'block': bi, 'idx': 'term', 'target': rec.place(t['dest']), 'value': rec.call(t),
+            out.append({'block': bi, 'idx': 'term', 'target': rb.place(t['dest']), 'value': rb.call(t),
                         'span': t.get('span')})
     return out
 
